@@ -39,8 +39,25 @@ Theorem C10_encode_respects_iso : forall H H' d, iso H H' -> encode_history d H 
 Proof. exact encode_respects_iso. Qed.
 Print Assumptions C10_encode_respects_iso.
 
-(* the JSON of a faithful pool-closed history mentions only uids of its pool, each once; this is
-   what the driver's [guard_b] tests on the JSON actually written ([e_closed_b] decides it) *)
+(* continuation: a loaded history that is continued through add_to_history / add_to_archive_history
+   (new cells appended to the heap; new generations / snapshots; references to loaded objects, i.e. to
+   objects reachable in H, or to the new cells) is isomorphic to, and is saved exactly like, the
+   original history continued in the same way - the encoder reads nothing but the generations, the
+   archive and the objects reachable from them, there is no stored pool it could reuse *)
+Theorem C10_continuation : forall H d d' E H' G,
+  uid_faithful H -> no_str H ->
+  encode_history d H = Some E -> decode_history d' E = Some H' ->
+  (forall r, reach H r -> r < length (h_heap H)) ->
+  (forall r, In r (ext_refs G) -> (r < length (h_heap H) /\ reach H r) \/
+                                  (length (h_heap H) <= r < length (h_heap H) + length (x_cells G))) ->
+  exists f, (forall i, i < length (x_cells G) -> f (length (h_heap H) + i) = length (h_heap H') + i) /\
+            iso (extend H G) (extend H' (ren_ext f G)) /\
+            forall d2, encode_history d2 (extend H G) = encode_history d2 (extend H' (ren_ext f G)).
+Proof. exact continuation_encode. Qed.
+Print Assumptions C10_continuation.
+
+(* the JSON of such a history mentions only uids of its pool, each once, so loading creates no
+   MISSING_INDIVIDUAL placeholder ([e_closed_b] decides closedness of a JSON tree) *)
 Theorem C10_encode_closed : forall H d E,
   uid_faithful H -> no_str H -> encode_history d H = Some E -> e_closed_b E = true.
 Proof. intros H d E UF PCL Henc. apply e_closed_b_iff. exact (encode_closed H d E UF PCL Henc). Qed.
